@@ -30,7 +30,7 @@ func init() { core.Register(c17{}) }
 
 func (c17) ID() string { return "C17" }
 func (c17) Rule() string {
-	return "one CLIPlugin call per run through the real run/execCommander/LimitWriter code against a scripted process: command x exit {0,1,signal} x stdout {valid, each mandatory metadata field removed, wrong name, unsupported contract version, non-JSON, empty, padded before/after up to 200 MiB} x stderr {empty, structured error per code, partial, non-JSON, huge} x timing {immediate, slower than the deadline, never exits, descendant holding the pipes up to 100 h} x context {none, deadline, cancelled at a drawn instant} x pipe delivery size; In a quarter of the runs the plugin object has already served the same command once for an honest build of the executable, which is then replaced. non-trivial: anything but the canonical well-behaved call; distinct: hash of the knob vector and the classified outcome"
+	return "one CLIPlugin call per run through the real run/execCommander/LimitWriter code against a scripted process: command x exit {0,1,signal} x stdout {valid, each mandatory metadata field removed, wrong name, unsupported contract version, non-JSON, empty, padded before/after up to 200 MiB} x stderr {empty, structured error per code, partial, non-JSON, huge} x timing {immediate, slower than the deadline, never exits, descendant holding the pipes up to 100 h} x context {none, deadline, cancelled at a drawn instant} x pipe delivery size; In a quarter of the runs the plugin object has already served the same command once for an honest build of the executable, which is then replaced - and in half of those the host has already tried once with the new build; in a third of the runs the plugin object is issued by a CLIManager. non-trivial: anything but the canonical well-behaved call; distinct: hash of the knob vector and the classified outcome"
 }
 func (c17) Components() map[string]string {
 	return map[string]string{
